@@ -118,7 +118,17 @@ def r3(ctx):
         fid = F + fname
         fn = ctx.fn(fid, "R3")
         fl = FL.flow(fn)
+        # the per-filter parameter getter: by name, or (after a rename) the crate-local function called here with an index
+        # argument whose body reads /DecodeParms
         gp = L.calls_to(fn, ["get_filter_params"])
+        if not gp:
+            for b, c, args, dest, t, u in fn.calls():
+                f2 = ctx.facts.fns.get(c.get("r")) if isinstance(c, dict) else None
+                if f2 is not None and f2.id.startswith(F) and len(args) == 2 and (f2.params or [None, None])[1] == "usize" and \
+                        "PdfDictionary" in (f2.ret or "") and \
+                        ("DecodeParms" in L.keys_read_deep(ctx.facts, f2.id) | L.fn_strs(f2) or
+                         {"DecodeParms", "DP"} & L.dict_key_sources(ctx.facts, fn, FL.op_locals(args[0]))):
+                    gp.append((b, c, args, dest))
         if not ctx.floor("R3", "get_filter_params call in " + fname, len(gp), 1):
             continue
         for b, c, args, dest in gp:
